@@ -421,7 +421,7 @@ MACRO_BINDS = [
 class C12(Prop):
     pid = "C12"
     manifest = dict(
-        technique='Lean 4 theorems over an executable model (Cel.Model.Names) of NameContainer/Referent loading, find_name, dict_find_name, resolve_name and member_dot: resolution equals the longest-bound-prefix specification for ALL binding sets, packages and references under the hypotheses the proof forces; macro scoping by induction over ALL nestings, both runners; tie by exhaustive small-scope correspondence on both runners with an independent Python specification as oracle',
+        technique='Lean 4 theorems over an executable model (Cel.Model.Names) of NameContainer/Referent loading, find_name, dict_find_name, resolve_name and member_dot: resolution equals the longest-bound-prefix specification for ALL binding sets, packages and references under the hypotheses the proof forces; macro scoping by induction over ALL nestings, both runners; tie: the abstract syntax of Referent.value, find_name, dict_find_name, resolve_name, get, resolve_variable, __getattr__ is dumped from the source on every run and RUN by a mini-Python interpreter in Lean (kernel evaluation) against the model, plus exhaustive small-scope correspondence on both runners with an independent Python specification as oracle',
         text='proof: evaluating a dotted reference in the model of both runners equals `denote` (first package level binding the head, longest bound prefix, remaining components as field selections) for every binding list, package path and reference, outside the two named defect zones (a bound name that is also a namespace prefix; a pure namespace prefix used as a value); bindings override declarations; a macro variable shadows only inside its body at any nesting depth; the model is compared with the implementation on an exhaustive small scope on every run',
         note='Lean kernel; standard axioms; evaluator/NameContainer control flow hand-modelled and tied by correspondence; lark',
         ref='DESIGN.md §5 C12')
@@ -429,10 +429,12 @@ class C12(Prop):
     audit_namespaces = ["Cel.Props.C12", "Cel.Bridge"]
     gen_names = ["Names", "NamesPy"]
     trusted = ["lark parsing of the rendered CEL text", "json_to_cel for the bound values (C15)",
-               "CPython dict semantics of NameContainer (modelled as association lists)"]
+               "CPython dict semantics of NameContainer (modelled as association lists)",
+               "the AST dump (gen_c12_py.py) and the mini-Python interpreter Cel.Model.NamesPy (value semantics; mutation only on fresh unaliased locals, checked syntactically)"]
     rule = ("exhaustive small scope: path a.b.c, every assignment unbound/scalar/nested-map to its prefixes at the root (18) x 8 assignments at "
             "package level p x 8 at p.q, x package in {none, p, p.q} x 8 references (prefixes, siblings, unbound head, over-long) x both runners "
-            "(thorough: all 1152 configurations; quick: a seeded sample) + declarations overlapped with bindings + random macro nestings to depth 3 "
+            "(thorough: all 1152 configurations; quick: a seeded sample) + package paths of depth 1..5 with the head bound at arbitrary (intermediate) levels "
+            "+ declarations overlapped with bindings + random macro nestings to depth 3 "
             "over colliding variable names {x,y,a,b}. non-trivial = distinct case with a dotted binding or a nested map or a package, "
             "or a macro nesting of depth >= 2")
 
